@@ -575,6 +575,12 @@ class C19(Check):
             for m in (s[:-1], s[:-11], s[:11], s + b"1", s + s[:11], b" " + s, s + b" ", s.lower(), s[1:], b"", s + b"\x00",
                       b"\"" + s + b"\"", s[:40] + b"\xff" + s[41:]):
                 add("json_addr_bad " + (m.hex() or "-"), "addr-text/length-or-foreign", costly=len(m) >= 95)
+        # other spellings of the SAME address that the crate can parse elsewhere (Address::from_hex) must not be accepted as
+        # the JSON form: hex of the blob, 0x-prefixed, upper case
+        for t in addr_values[:6]:
+            blob = A.blob_of(*addr_fields(t))
+            for m in (blob.hex().encode(), b"0x" + blob.hex().encode(), blob.hex().upper().encode(), b"0X" + blob.hex().encode()):
+                add("json_addr_bad " + m.hex(), "addr-text/hex-spelling", costly=True)
         for bk in bad_keys:
             good = rng.choice(keys)
             for net, kind in (("main", "std"), ("stage", "sub"), ("test", "int")):
